@@ -2,6 +2,7 @@
 from props import common as C
 from props import lifecycle as L
 from props import rawlife as R
+from ref import wire as W
 
 ID = "C08"
 LEVEL = "fault_enumeration"
@@ -60,6 +61,18 @@ def boundaries(role, exch):
     return out
 
 
+def pdu_boundaries(role, exch):
+    """Offsets of every PDU boundary in the peer's stream (a message may span several P-DATA-TF PDUs)."""
+    out, n = [], 0
+    for st in peer_script(role, exch):
+        if st["do"] == "send":
+            pdus, _rest = W.frame(R.build(st))
+            for _t, payload, _off in pdus:
+                n += 6 + len(payload)
+                out.append(n)
+    return out
+
+
 def _mk(role, exch, k, sched=None, net=None, t=None, dribble=False, size=300, cap=None):
     t = t or 0.05
     ae = {"acse": t, "dimse": 1.4 * t, "network": 2 * t, "connection": t}
@@ -86,7 +99,8 @@ def directed(tier):
             if tier == "thorough":
                 ks = list(range(0, total + 1))
             else:
-                ks = sorted(set([0, 1, 5, 6, 7] + [b + d for b in bs for d in (-1, 0, 1, 3, 6, 7)] + list(range(0, total, 8))))
+                ks = sorted(set([0, 1, 5, 6, 7] + [b + d for b in bs for d in (-1, 0, 1, 3, 6, 7)] + list(range(0, total, 8))
+                                + [b + d for b in pdu_boundaries(role, exch) for d in (-1, 0, 1)]))
                 ks = [k for k in ks if 0 <= k <= total]
             for k in ks:
                 out.append(_mk(role, exch, k))
